@@ -917,7 +917,8 @@ PROPS = {
              "closest_deadline after each one; the two invariants are also checked directly on the recorded states"
              " Directed histories of half-closed tunnels with steady traffic in the other direction (see C02); theorems half_closed_not_early / half_closed_transfer_restarts"
              " Idle tunnels as the client sees them (in c14live): CONNECT over the real HTTP/1.1 and HTTP/2 codecs through the real direct forwarder to a loopback origin that stays silent, T = 500 ms, with one relayed byte or none: the client's connection (h1) / stream (h2) must end between T and 2T + slack after the last byte, and the origin's connection with it"
-             " Two more clients that never finish: one complete TLS record holding the first 32 bytes of the hello's handshake message, then silence; one complete record of another type, then silence",
+             " Two more clients that never finish: one complete TLS record holding the first 32 bytes of the hello's handshake message, then silence; one complete record of another type, then silence"
+             " One-sided traffic (in c14live): over real HTTP/1.1 and HTTP/2 codecs, the client - or the origin - sends a byte every T/3 for 3T while the other side is silent: the silent direction's timer fires and restarts the pipe's loops again and again, the tunnel must stay up and every byte arrive",
         explanation="theorems idle_not_early, idle_bound_2T, progress_at_deadline_keeps_open, wf_step about the Timer model of "
                     "TT/Model/Pipe.lean; establishment_timeout_reported, establishment_in_time_connected, "
                     "establishment_timeout_destination_independent about TT.Dispatch.handle (the request path model of C10); "
@@ -1137,7 +1138,7 @@ PROPS = {
     "C17": dict(
         retry_on_failure=True,
         known_oracle_kinds=["unframed-request-body"],
-        suites=["c17", "c17h3"],
+        suites=["c17", "c17h3", "c17restart"],
         judge=judge_c17,
         level="proof",
         rule="9 directed and 2500 (thorough 20000) generated exchanges through the real into_forwarded source and sink driven by the real "
@@ -1156,7 +1157,8 @@ PROPS = {
              "end headers, no Proxy-Authorization, body), status, X-A header, no hop-by-hop header, exact body, clean end of the stream"
              " Response heads with 31, 32, 33, 63, 64, 65, 100, 127, 128, 129, 200 header lines (whole and cut in the middle, client accepting 3 bytes first): the model refuses above `responseHeaderCapacity` = 128 (constants regenerated from the code), the implementation must answer and not spin (every scripted run is watched)"
              " A third of the generated requests repeat a header name on two or three lines (all must be forwarded)"
-             " Responses carry Connection headers that nominate other fields of the response (X-Thing, SERVER, Set-Cookie, Content-Type, Upgrade) in their own spelling, ahead of those fields and behind them; a third of the requests with a declared length have more body bytes than declared (theorem connection_nominated_headers_removed)",
+             " Responses carry Connection headers that nominate other fields of the response (X-Thing, SERVER, Set-Cookie, Content-Type, Upgrade) in their own spelling, ahead of those fields and behind them; a third of the requests with a declared length have more body bytes than declared (theorem connection_nominated_headers_removed)"
+             " Timer restarts (suite c17restart): POSTs over HTTP/1.1, 2, 3 whose body pauses for 4/3 ... 5/2 of the idle timeout while the origin sends an interim response every T/2: the pipe's loops are restarted under the pending read of the body, and the origin must still get all of it",
         explanation="theorems segmentation_and_backpressure_independent, independent_after_origin_close, delivery_monotone, "
                     "chunked_body_delivered_exactly, content_length_body_delivered_exactly, close_delimited_body_delivered_exactly, "
                     "bodiless_response_ends_with_head, head_204_304_are_bodiless, interim_response_is_transparent, "
